@@ -309,6 +309,26 @@ func init() {
 			sp = append(sp, fw.Space{Name: "syntax-error-positions", N: nseq * 2,
 				Run:  func(c *fw.Ctx, i int64) { c12Run(c, "expression", layout(i), []int{0}) },
 				Repr: func(i int64) string { return fmt.Sprintf("expression %q: position quoted in the syntax error", layout(i)) }})
+			// change-directed: quoted strings and quoted identifiers ending in a literal that is new in the working tree
+			if na := newAtoms(4); len(na) > 0 {
+				vocab := []string{}
+				for _, v := range exprVocabSmall {
+					vocab = append(vocab, v.text)
+				}
+				for _, a := range na {
+					vocab = append(vocab, "'x"+strings.ReplaceAll(a, "'", "''")+"'", "\"x"+strings.ReplaceAll(a, "\"", "\"\"")+"\"")
+				}
+				nv := countStrings(len(vocab), 3) - 1
+				lay := func(i int64) string {
+					if i%2 == 0 {
+						return strings.Join(lexemesByIndex(vocab, 1+i/2), " ")
+					}
+					return strings.Join(lexemesByIndex(vocab, 1+i/2), "\n  ")
+				}
+				sp = append(sp, fw.Space{Name: "syntax-error-positions-new-literals", N: nv * 2,
+					Run:  func(c *fw.Ctx, i int64) { c12Run(c, "expression", lay(i), []int{0}) },
+					Repr: func(i int64) string { return fmt.Sprintf("expression %q: position quoted in the syntax error (tokens incl. literals new in the working tree: %q)", lay(i), na) }})
+			}
 			return sp
 		},
 		Bounds: func(tier string) string {
